@@ -346,6 +346,9 @@ func Guard[S any](p *Prop[S], spec S, f func(S) Result) (res Result) {
 		kind := "hang"
 		if isDeadlock(s1) && isDeadlock(s2) {
 			kind = "deadlock"
+		} else if inHarnessDelay(s1) && inHarnessDelay(s2) {
+			// the time goes into delays the harness itself injects (jitter sleeps): says nothing about wharf
+			kind = "harness-delay"
 		}
 		writeCase(shardFile(p.Name, "hang"), p.ID, p.Name, spec, kind,
 			fmt.Sprintf("no result after %s (%s)", wd, kind), nil, s1+"\n======== 1s later ========\n"+s2)
@@ -399,6 +402,17 @@ func isDeadlock(dump string) bool {
 		}
 	}
 	return parkedInWharf
+}
+
+// inHarnessDelay reports whether some goroutine of the dump is sleeping inside the harness' own
+// perturbation code.
+func inHarnessDelay(dump string) bool {
+	for _, g := range strings.Split(dump, "\n\n") {
+		if strings.Contains(g, "time.Sleep(") && strings.Contains(g, "verif/harness/h.(*Jitter).Pause") {
+			return true
+		}
+	}
+	return false
 }
 
 func allStacks() string {
